@@ -115,3 +115,6 @@ def run(ctx):
     # tensor it was handed (carried f / g, an SDE output, a Brownian increment) in place changes data it does not own
     from . import c05
     ctx.guard(c05.r05_5_solvers)
+    # the reverse solve sees, through ReverseBrownian, the very path the forward solve saw: the wrappers do not replace the
+    # object they view while answering a query
+    ctx.guard(c05.r05_7)
